@@ -164,6 +164,9 @@ ADDENDA4 = {
     "C14": ("; configuration dimension permessage-deflate negotiated (RSV rule of RFC 6455 5.2 with RFC 7692 6: invariant ReservedBitsOk over the frames taken in; deviations rsv1-shadows-reserved-bits, rsv1-on-non-first-frame-accepted)",
             "; with and without permessage-deflate: RSV1 accepted exactly on the first frame of a data message (the message is then inflated and delivered), every other use of RSV1/RSV2/RSV3 fails with Close 1002 - full RSV product x opcode x FIN x mask as single frames, sequences to depth 2-3 with compressed or fragmented messages and control frames",
             "; compression is a dimension of the header, pmd and sim families; compressed payloads are stored-block DEFLATE streams made by the replayer; invalid DEFLATE data, context takeover and window parameters are not judged"),
+    "C15": ("; transport writes made to fail (timeout / plain error) with the transport open after a proper prefix - control frames, data header+buffer, data extra, handler answers (action TFault, invariant CutIsLast, deviation timeout-not-sticky)",
+            "; a frame left incomplete by a failed transport write is the end of the stream: the failed call and all later calls fail and nothing is written behind it",
+            "; fault positions are chosen single writes, the accepted prefix is half of the bytes or none; which error is returned is not judged"),
     "C16": ("; value classes in Jose.tla: payload tails that look like the PKCS#7 padding for every length mod 16, wrong keys related to the right symmetric key (prefix-extended, zero-extended, truncated, zero-stripped); deviations unpad-greedy, key-resized",
             "; every object with a raw symmetric key is also opened with K+1 octet, K doubled, K+zeros, K minus one octet and half of K and must fail; payloads whose last octet, trailing run or every octet equals the pad value of their length come back whole under all 6 content encryptions",
             "; no claim for HS* about K versus K followed by or stripped of zeros (RFC 2104: one key)"),
